@@ -31,12 +31,19 @@ type bufferPool struct {
 func (b *bufferPool) Get() *bytes.Buffer {
 	if buffer, ok := b.Pool.Get().(*bytes.Buffer); ok {
 		buffer.Reset()
+		verifOnPoolGet(buffer)
+		return buffer
+	}
+	if verifPoolHooked {
+		buffer := bytes.NewBuffer(make([]byte, 0, initialBufferSize))
+		verifOnPoolGet(buffer)
 		return buffer
 	}
 	return bytes.NewBuffer(make([]byte, 0, initialBufferSize))
 }
 
 func (b *bufferPool) Put(buffer *bytes.Buffer) {
+	verifOnPoolPut(buffer)
 	if buffer.Cap() > maxRecycleBufferSize {
 		return
 	}
